@@ -28,7 +28,8 @@ def write_workflow(path, wf):
          "nodes": [], "edges": []}
     for n in wf["nodes"]:
         d = {"id": n["k"] - 1, "comp": n["comp"]}
-        if n.get("data") is not None:
+        # the data demand is an optional key of a workflow node (absent = none)
+        if n.get("data") is not None and not (wf.get("sparse") and n["data"] == 0):
             d["task_data"] = n["data"]
         g["nodes"].append(d)
     for e in wf["edges"]:
@@ -379,6 +380,15 @@ def run(cfg, segs=None, perm_seed=None, perm_kinds=None, budget=None, full=True,
     return out
 
 
+def _node_k(n):
+    if hasattr(n, "id"):
+        return task_key(n)[1]
+    try:
+        return int(n) + 1
+    except (TypeError, ValueError):
+        return 0
+
+
 def plans_view(reg):
     res = []
     for o, plan in reg.plan_objs.items():
@@ -391,7 +401,9 @@ def plans_view(reg):
                        "io": sorted([{"p": str(a), "v": b} for a, b in (t.io or {}).items()], key=lambda r: r["p"]),
                        "pm": str(t.allocated_machine_id) if t.allocated_machine_id is not None else ""}
                       for t in tasks],
-            "edges": sorted([{"u": task_key(u)[1], "v": task_key(v)[1]} for u, v in g.edges()],
+            # a graph node that is not a Task (a workflow node the plan never turned
+            # into a task) is reported by its raw label, offset like task numbers
+            "edges": sorted([{"u": _node_k(u), "v": _node_k(v)} for u, v in g.edges()],
                             key=lambda r: (r["u"], r["v"])),
         })
     return res
